@@ -38,6 +38,9 @@ type Loc struct {
 	mapT *types.Map
 	path []pathSel
 	T    types.Type // type at the root (before path)
+	// container (map / slice) reached through a lock-guarded field: writes to its contents need the write lock
+	guardKey string
+	guardRef string
 }
 
 func (l *Loc) locType() types.Type {
@@ -191,12 +194,16 @@ func (fx *Fx) lvalue(st *State, e ast.Expr) *Loc {
 			fx.wfSlice(st, s.T)
 			i := fx.eval(st, e.Index)
 			fx.boundsCheck(st, i.T, "(s_len "+s.T+")", e)
-			return &Loc{kind: locElem, key: "E:" + typeKey(u.Elem()), srt: fx.c.sortOf(u.Elem()), ref: "(s_base " + s.T + ")", idx: fmt.Sprintf("(+ (s_off %s) %s)", s.T, i.T), T: u.Elem()}
+			l := &Loc{kind: locElem, key: "E:" + typeKey(u.Elem()), srt: fx.c.sortOf(u.Elem()), ref: "(s_base " + s.T + ")", idx: fmt.Sprintf("(+ (s_off %s) %s)", s.T, i.T), T: u.Elem()}
+			l.guardKey, l.guardRef = fx.containerGuard(st, e.X)
+			return l
 		case *types.Map:
 			m := fx.eval(st, e.X)
 			k := fx.eval(st, e.Index)
 			k = fx.convertTo(st, k, u.Key())
-			return &Loc{kind: locMap, key: typeKey(xt), ref: m.T, idx: k.T, mapT: u, T: u.Elem(), srt: fx.c.sortOf(u.Elem())}
+			l := &Loc{kind: locMap, key: typeKey(xt), ref: m.T, idx: k.T, mapT: u, T: u.Elem(), srt: fx.c.sortOf(u.Elem())}
+			l.guardKey, l.guardRef = fx.containerGuard(st, e.X)
+			return l
 		case *types.Pointer:
 			if arr, ok := types.Unalias(u.Elem()).Underlying().(*types.Array); ok {
 				_ = arr
@@ -441,10 +448,12 @@ func (fx *Fx) writeLoc(st *State, l *Loc, v Val) {
 		}
 		st.setHeap(l.key, hs, fmt.Sprintf("(store %s %s %s)", h, l.ref, v.T))
 	case locElem:
+		fx.contentGuardCheck(st, l)
 		hs := "(Array Int (Array Int " + l.srt + "))"
 		h := st.heap(l.key, hs)
 		st.setHeap(l.key, hs, fmt.Sprintf("(store %s %s (store (select %s %s) %s %s))", h, l.ref, h, l.ref, l.idx, v.T))
 	case locMap:
+		fx.contentGuardCheck(st, l)
 		ks, vs := c.sortOf(l.mapT.Key()), c.sortOf(l.mapT.Elem())
 		fx.c.oblige(st, "panic", "nil-map-write("+l.key+")", fmt.Sprintf("(not (= %s 0))", l.ref), "assignment to entry in nil map", fx.w.pos(fx.curPos))
 		st.assume(fmt.Sprintf("(not (= %s 0))", l.ref))
@@ -557,4 +566,37 @@ func (fx *Fx) guardCheck(st *State, l *Loc, write bool) {
 	}
 	phi := fmt.Sprintf("(or %s %s)", fresh, cond)
 	fx.c.oblige(st, "guarded-by", what+"("+strings.TrimPrefix(l.key, "F:")+")", phi, what+" of "+strings.TrimPrefix(l.key, "F:")+" with "+strings.TrimPrefix(lk, "F:")+" held", fx.w.pos(fx.curPos))
+}
+
+// containerGuard: if the container expression is a field declared guarded_by, the field's heap key and object.
+func (fx *Fx) containerGuard(st *State, x ast.Expr) (string, string) {
+	sel, ok := unparen(x).(*ast.SelectorExpr)
+	if !ok {
+		return "", ""
+	}
+	s := fx.info.Selections[sel]
+	if s == nil || s.Kind() != types.FieldVal || len(s.Index()) != 1 {
+		return "", ""
+	}
+	_, named, isPtr := structOf(fx.info.TypeOf(sel.X))
+	if named == nil || !isPtr {
+		return "", ""
+	}
+	st2, _, _ := structOf(fx.info.TypeOf(sel.X))
+	key := fieldKey(named, st2.Field(s.Index()[0]).Name())
+	if fx.w.guardOf(key) == "" {
+		return "", ""
+	}
+	save := fx.c.dry
+	fx.c.dry = true // the receiver was evaluated already; re-evaluation only to obtain its term
+	ref := fx.eval(st, sel.X).T
+	fx.c.dry = save
+	return key, ref
+}
+
+func (fx *Fx) contentGuardCheck(st *State, l *Loc) {
+	if l.guardKey == "" {
+		return
+	}
+	fx.guardCheck(st, &Loc{kind: locHeap, key: l.guardKey, ref: l.guardRef}, true)
 }
